@@ -10,6 +10,8 @@ for d in sorted(glob.glob('/verif/seeded/*/meta.json')):
         if not r: return 'not run'
         return ('caught (%ds): %s' % (r['wall_s'], ', '.join(b.split('/', 1)[-1] for b in r['new_buckets'][:2]))) if r['detected'] else 'MISSED'
     note = m.get('strengthened', '')
-    rows.append(f"| {sid} | {m.get('site','')} | {m.get('needs','')[:150].replace('|','/')} | {cell(q)}{' / thorough: ' + cell(t) if t else ''} | {note} |")
+    cross = [(k.split(':', 1)[1], r) for k, r in runs.items() if ':' in k and r.get('detected')]
+    crosstxt = ''.join(f' / caught by the {c} check ({r["wall_s"]}s): ' + ', '.join(b.split('/', 1)[-1] for b in r['new_buckets'][:2]) for c, r in cross)
+    rows.append(f"| {sid} | {m.get('site','')} | {m.get('needs','')[:150].replace('|','/')} | {cell(q)}{' / thorough: ' + cell(t) if t else ''}{crosstxt} | {note} |")
 print('| id | site | needs to manifest | property check (quick tier) | follow-up |\n|---|---|---|---|---|')
 print('\n'.join(rows))
